@@ -23,11 +23,9 @@ m('rev_F2_guard_raises_in_runloop', ['C03'], S,
 m('rev_F6_runloop_inherits_context', ['C06'], S,
   ("self._runloop_task = loop.create_task(self._run_loop(), name=f'{self}._run_loop', context=runloop_context)", "self._runloop_task = loop.create_task(self._run_loop(), name=f'{self}._run_loop')"))
 m('rev_F3_child_tracked_before_accept', ['C14'], S,
-  ("""        # Add this EventBus to the event_path if not already there
-        if self.name not in event.event_path:""", """        self._track_child_event(event)
+  ("""        # Check hard limit on total pending events (queue + in-progress)""", """        self._track_child_event(event)
 
-        # Add this EventBus to the event_path if not already there
-        if self.name not in event.event_path:"""),
+        # Check hard limit on total pending events (queue + in-progress)"""),
   ("""                self._track_child_event(event)
                 logger.info(""", """                logger.info("""))
 m('rev_F1_take_event_before_lock', ['C04'], S,
@@ -52,7 +50,7 @@ m('rev_F1_take_event_before_lock', ['C04'], S,
                 except asyncio.QueueEmpty:
                     return None  # an awaiting handler already processed it while we waited for the lock
             assert event is not None""", """            assert event is not None"""))
-m('rev_F5_no_finalise_on_cancel', ['C10', 'C15'], S,
+m('rev_F5_no_finalise_on_cancel', ['C10'], S,
   ("""            event.event_cancel_pending_child_processing(cancelled)
             self._finish_processing_event(event)
             raise""", """            raise"""),
@@ -71,8 +69,6 @@ m('rev_F7_swallow_cancel_while_polling', ['C16'], S,
                 # all remaining tasks at exit). Swallowing that would keep the loop polling forever and hang the exit
                 raise
             return False""", """            return False"""))
-m('rev_F15_inline_ignores_stopped', ['C16'], MO,
-  ("if not bus or not bus.event_queue or not bus._is_running:  # pyright: ignore[reportPrivateUsage]", "if not bus or not bus.event_queue:"))
 m('rev_F18_restart_on_dead_queue', ['C16'], S,
   ("""            if self.event_queue is not None and self.event_queue._is_shutdown:  # pyright: ignore[reportPrivateUsage]
                 # stop() shut the queue down: a stopped bus stays stopped. Starting a new run loop on the dead queue would
@@ -129,7 +125,12 @@ m('c06_lock_only_when_many_buses', ['C06'], S,
   ("        # Always acquire the global lock (it's re-entrant across tasks)\n        async with _get_global_lock():", "        # Always acquire the global lock (it's re-entrant across tasks)\n        async with (_get_global_lock() if len(EventBus.all_instances) != 2 else contextlib.nullcontext()):"),
   ("import asyncio\nimport contextvars", "import asyncio\nimport contextlib\nimport contextvars"))
 m('c07_path_appended_every_dispatch', ['C07'], S,
-  ("        if self.name not in event.event_path:\n            # preserve identity", "        if self.name not in event.event_path or event.event_path[-1] != self.name:\n            # preserve identity"))
+  ("                if self.name not in event.event_path:\n                    # preserve identity", "                if self.name not in event.event_path or event.event_path[-1] != self.name:\n                    # preserve identity"))
+m('rev_F25_path_before_accept', ['C14'], S,
+  ("""        # Check hard limit on total pending events (queue + in-progress)""", """        if self.name not in event.event_path:
+            event.event_path.append(self.name)
+
+        # Check hard limit on total pending events (queue + in-progress)"""))
 m('c09_context_not_reset', ['C09'], S,
   ("            _current_event_context.reset(token)\n", "            pass\n"))
 m('c09_child_attributed_to_first_result', ['C09'], S,
@@ -153,7 +154,7 @@ m('c13_evict_oldest_regardless', ['C13'], S,
 m('c13_bound_off_by_one', ['C13'], S,
   ("        if self.max_history_size and len(self.event_history) > self.max_history_size:\n            self.cleanup_event_history()\n\n        return event", "        if self.max_history_size and len(self.event_history) > self.max_history_size + 1:\n            self.cleanup_event_history()\n\n        return event"))
 m('c14_history_before_queue', ['C14'], S,
-  ("            try:\n                self.event_queue.put_nowait(event)\n                # Only add to history after successfully queuing\n                self.event_history[event.event_id] = event", "            try:\n                self.event_history[event.event_id] = event\n                self.event_queue.put_nowait(event)"))
+  ("            try:\n                self.event_queue.put_nowait(event)\n                # Only add to history after successfully queuing\n                self.event_history[event.event_id] = event\n", "            try:\n                self.event_history[event.event_id] = event\n                self.event_queue.put_nowait(event)\n"))
 m('c14_swallow_queue_full', ['C14'], S,
   ("                raise  # could also block indefinitely until queue has space, but dont drop silently or delete events", "                pass"))
 m('c15_join_on_done_flag_only', ['C15'], S,
